@@ -1,6 +1,7 @@
 //! Loom-build primitives: loom's modeled types, shimmed where their API
 //! differs from what the channels use. Keep the export list in lockstep with
 //! `real.rs`.
+#![allow(unexpected_cfgs)] // `excsn_fibre_verif` gates the verification seam H7 (`thread::park_timeout`)
 
 pub(crate) use loom::sync::atomic::{
   fence, AtomicBool, AtomicPtr, AtomicU8, AtomicU32, AtomicU64, AtomicUsize, Ordering,
@@ -28,8 +29,18 @@ pub(crate) mod thread {
 
   use std::time::Duration;
 
+  #[cfg(not(excsn_fibre_verif))]
   pub fn park_timeout(_duration: Duration) {
     panic!("thread::park_timeout is not modeled under loom - keep timeout paths out of loom tests");
+  }
+
+  /// Verification seam H7: a timed park is an untimed loom park, i.e. the timeout is "long enough
+  /// never to fire" inside a model run. This makes the park/wake protocol of the timed receive
+  /// paths explorable (a lost wakeup there shows up as a loom deadlock); the deadline branch itself
+  /// is explored with `Duration::ZERO`, which never reaches the park.
+  #[cfg(excsn_fibre_verif)]
+  pub fn park_timeout(_duration: Duration) {
+    loom::thread::park();
   }
 
   pub fn sleep(_duration: Duration) {
